@@ -16,7 +16,7 @@ def run(tier, seed, replay=None):
         raise vlib.Infra("signer-comparison mutant of the model is no longer refuted")
     shutil.rmtree(m.workdir, ignore_errors=True)
     rep = vlib.run_harness(binary, ["c03", "-cases", os.path.join(r.workdir, "c03_cases.ndjson"), "-flip-every", "7" if tier == "quick" else "1"], timeout=7000)
-    if rep.get("extra", {}).get("read_error") or rep["inconclusive"]:
+    if rep.get("extra", {}).get("read_error") or (rep["inconclusive"] and not rep["divergences"]):
         raise vlib.Infra("c03 harness: %s" % rep.get("extra"))
     ck.add_report(rep)
     ck.cov["rule"] = ("one case per TLC state, concretised with Ed25519 / secp256k1 / ECDSA (RSA on every 8th) keys and run through head.Decode+Validate, "
